@@ -1,4 +1,3 @@
-//go:build c18hook
 
 package c18
 
